@@ -592,6 +592,12 @@ def check(prop, tier, seed, replay=None):
                                       "invariants": ["C11_NoForeignRead", "C11_OutputDeps"]})
         pref = model_prefixes(prop, tier, wd, rng, cov)
         S = {"C10": c10_scripts, "C16": c16_scripts, "C17": c17_scripts, "C11": c11_scripts}[prop](rng, tier, pref)
+    if prop == "C16":
+        # every (mask, per-channel length) case of the partial wrapper that Shapes.tla enumerates
+        from . import shapes
+        for nch in ([1, 2] if tier == "quick" else [1, 2, 3]):
+            _, pcases = shapes.cases(nch, wd, prop, cov)
+            S += shapes.partial_scripts(pcases, nch, rng, limit={"quick": 300, "thorough": 3000}[tier])
     # witnesses of repaired defects of this property (regressions)
     for w in {"C10": ["D13"]}.get(prop, []):
         wp = os.path.join(run.VERIF, "findings", w + ".jsonl")
